@@ -28,11 +28,13 @@ def taglink(o: 'model.Documentable', page_url: str,
         always generate full urls that includes the filename.
     @param label: The label to use for the link
     """
-    if not o.isVisible:
-        o.system.msg("html", "don't link to %s"%o.fullName())
-
     if label is None:
         label = o.fullName()
+
+    if not o.isVisible:
+        # Hidden objects are not rendered: there is no page or anchor to link to.
+        o.system.msg("html", "don't link to %s"%o.fullName())
+        return tags.transparent(label)
 
     url = o.url
     if page_url and url.startswith(page_url + '#'):
